@@ -9,7 +9,7 @@ import (
 	"verifharness/internal/val"
 )
 
-var c08Floor = []string{"depth.2", "depth.3", "inner.empty", "outer.empty", "mid.empty", "ragged", "where", "item.alias", "item.nonidempotent", "item.star", "mix"}
+var c08Floor = []string{"depth.2", "depth.3", "inner.empty", "outer.empty", "mid.empty", "ragged", "where", "item.alias", "item.nonidempotent", "item.star", "item.async", "item.userfn", "mix"}
 
 func init() {
 	fw.Register(&fw.Prop{
@@ -145,11 +145,21 @@ func c08Run(c *fw.Case) {
 		if c.Chance(0.3) {
 			items = append(items, "n2 AS n1x", "b1")
 		}
+		if force == "item.userfn" || c.Chance(0.15) {
+			items = append(items, "VFAIL(n2) AS u")
+			feats = append(feats, "item.userfn")
+		}
+		if force == "item.async" || c.Chance(0.15) {
+			items = append(items, "ASYNC.VBG(s1) AS w")
+			feats = append(feats, "item.async")
+		}
 	}
 	sel := strings.Join(items, ", ")
 	sql := "SELECT " + sel + " FROM mm" + where
 	inner := "SELECT " + sel + " FROM t" + where
+	armFault(0, faultNone)
 	o := Run(val.CopyMap(doc), sql)
+	waitBackground()
 	evals := 1
 	c.Sample(map[string]any{"sql": sql, "depth": depth, "outer_len": len(mm)})
 	det := map[string]any{"sql": sql, "doc": doc, "observed": o.Describe()}
